@@ -32,7 +32,7 @@ def variants(a: str):
             f"[[{a}_old]]", f"[[{a.upper()}]]", f"[ [{a}]]", f"(({a}))", f"[#{a}]", f"{a}", f"[[{a}#]]"]
 
 
-def check_case(names, a, b, contents: dict):
+def check_case(names, a, b, contents: dict, with_ext=False):
     from zorg.app.runners._run_file import run_file_rename
 
     root = Path(tempfile.mkdtemp(prefix="zorgverif-c14-"))
@@ -49,7 +49,8 @@ def check_case(names, a, b, contents: dict):
             contents = dict(contents)
             contents[a + ".zo"] = src.read_text()
         (zdir / (b + ".zo")).parent.mkdir(parents=True, exist_ok=True)
-        cfg = SimpleNamespace(zettel_dir=zdir, src_name=a, dest_name=b)
+        # the command line accepts the names with or without the .zo extension
+        cfg = SimpleNamespace(zettel_dir=zdir, src_name=a + (".zo" if with_ext else ""), dest_name=b + (".zo" if with_ext else ""))
         try:
             rc = run_file_rename(cfg)
         except Exception as e:
@@ -74,7 +75,8 @@ def renames(tier, seed):
     rng = random.Random(seed * 3 + 1)
     n = 60 if tier == "quick" else 1200
     fails, samples, nontriv = [], [], 0
-    pairs = [("a", "b"), ("proj", "done/proj"), ("dir/page", "page2"), ("p_1", "p1"), ("x", "x_old"), ("ab", "a")]
+    pairs = [("a", "b"), ("proj", "done/proj"), ("dir/page", "page2"), ("p_1", "p1"), ("x", "x_old"), ("ab", "a"),
+             ("todo", "tasks"), ("quiz", "zoo"), ("zoo", "quiz"), ("memo.", "memo")][:9]
     for i in range(n):
         a, b = rng.choice(pairs)
         contents = {}
@@ -84,18 +86,19 @@ def renames(tier, seed):
                 continue
             vs = [rng.choice(variants(a)) for _ in range(rng.randint(1, 5))]
             contents[rel] = "# T " + vs[0] + "\n\n" + "".join(f"- 24010{j}#C{j} see {v} and {rng.choice(variants(a))}\n" for j, v in enumerate(vs)) + "\n"
-        err = check_case(None, a, b, contents)
+        with_ext = rng.random() < 0.5
+        err = check_case(None, a, b, contents, with_ext)
         nontriv += 1
         if err:
-            fails.append({"a": a, "b": b, "contents": contents, "error": err})
+            fails.append({"a": a, "b": b, "contents": contents, "with_ext": with_ext, "error": err})
         if i < 2:
             samples.append({"a": a, "b": b, "files": sorted(contents)})
-    return {"name": "renames", "bound": f"{n} generated directories (2-5 files among .zo/.zot/.zoq in sub-directories) x 7 (A, B) pairs; contents from 15 link-text variants of A (exact, anchors, prefix/suffix/path extensions, case, other bracket forms)",
+    return {"name": "renames", "bound": f"{n} generated directories (2-5 files among .zo/.zot/.zoq in sub-directories) x 9 (A, B) pairs (names ending in o / z, names given with and without .zo); contents from 15 link-text variants of A (exact, anchors, prefix/suffix/path extensions, case, other bracket forms)",
             "evaluations": n, "distinct_nontrivial": nontriv, "failures": fails, "samples": samples, "replay_fn": "replay_rename"}
 
 
 def replay_rename(case):
-    err = check_case(None, case["a"], case["b"], case["contents"])
+    err = check_case(None, case["a"], case["b"], case["contents"], case.get("with_ext", False))
     return err is None, err or "ok"
 
 
